@@ -95,6 +95,7 @@ struct ObsStats {
    long accessors = 0, refused = 0, foreign = 0, oob_refused = 0, oob_bad = 0;
    std::vector<std::string> foreign_where;   // "Category.accessor: type"
    std::vector<std::string> seq_bad;         // sequence protocol violations
+   std::vector<std::string> mistyped;        // "Category.accessor: ..." -- a returned reference whose dynamic type is not its static type
 };
 
 // Observe every accessor of the entity.  `deep_seq` also exercises the
